@@ -178,7 +178,8 @@ def alignment_table_case():
     return None
 
 
-class Timeout(Exception):
+class Timeout(BaseException):
+    # not an Exception: code under test that catches Exception must not swallow the alarm
     pass
 
 
@@ -282,7 +283,7 @@ def bounded_plain_roundtrip(tier, seed):
                     cnt, chunks = with_alarm(20, lambda: _m.marshal('v', [pyv], off, le))
                     raw = b''.join(chunks)
                     m2, out = with_alarm(20, lambda: _m.unmarshal('v', b'\x33' * off + raw, off, le))
-                except Exception as e:
+                except (Exception, Timeout) as e:
                     return n, 'variant round trip of the Python value %r raised %s: %s' % (pyv, type(e).__name__, e), {'value': repr(pyv), 'offset': off, 'little_endian': le}
                 if out != [want] or m2 != cnt or cnt != len(raw):
                     return n, 'variant round trip of %r at offset %d (le=%s) gives %r (%d/%d bytes), expected %r' % (pyv, off, le, out, m2, cnt, [want]), {'value': repr(pyv), 'offset': off, 'little_endian': le}
